@@ -483,6 +483,29 @@ func run(c *vf.Ctx) {
 				_, _ = s.ms.W.DeliverRaw(from, s.v, g2)
 			}
 			data = g1
+		case "replayed-after-rekey":
+			g1 := s.genuinePing(a.Type, x, x)
+			time.Sleep(2 * time.Millisecond)
+			g2 := s.genuinePing(a.Type, x, x)
+			pre = func() {
+				_, _ = s.ms.W.DeliverRaw(from, s.v, g1)
+				_, _ = s.ms.W.DeliverRaw(from, s.v, g2)
+				// the victim starts a hello exchange with X and X's genuine answer completes it
+				if a.Src >= 1 && a.Src <= 3 {
+					s.ms.W.Inflight = nil
+					_, _ = s.v.Rt.HelloPing.Send(x.ID.IP)
+					for round := 0; round < 4 && s.ms.W.NInflight() > 0; round++ {
+						for s.ms.W.NInflight() > 0 {
+							fl := s.ms.W.Take(0)
+							if (fl.From == s.v && fl.To == x) || (fl.From == x && fl.To == s.v) {
+								_, _ = s.ms.W.Deliver(fl)
+							}
+						}
+					}
+					note = "after a hello exchange the victim started"
+				}
+			}
+			data = g1
 		case "first-badkey":
 			// a ping of the unknown router whose header carries the key of ANOTHER key pair
 			y := s.node(4)
